@@ -124,7 +124,70 @@ func scenarioB(cfg hx.GCfg, P, M, S, c int, preSub bool, batch bool) *explore.Sc
 	}
 }
 
+// churnScenario: subscriptions A, B, C exist; A is cancelled while a message is published; a late
+// subscription D joins at the end: B, C and D must each have every message exactly once.
+func churnScenario(cfg hx.GCfg, c int) *explore.Scenario {
+	return &explore.Scenario{Name: fmt.Sprintf("%s/neighbour-leaves", cfg), C: c, Body: func() {
+		g := cfg.New()
+		ctxA, cancelA := context.WithCancel(context.Background())
+		recv := make([][]string, 4)
+		sub := func(s int, ctx context.Context) bool {
+			ch, err := g.Subscribe(ctx, "t")
+			if err != nil {
+				vs.Fail("subscribe-error", "%v", err)
+				return false
+			}
+			go func() {
+				for m := range ch {
+					recv[s] = append(recv[s], m.UUID)
+					m.Ack()
+				}
+			}()
+			return true
+		}
+		for s := 0; s < 3; s++ {
+			ctx := context.Background()
+			if s == 0 {
+				ctx = ctxA
+			}
+			if !sub(s, ctx) {
+				return
+			}
+		}
+		go func() {
+			if err := g.Publish("t", hx.Msg("m1")); err != nil {
+				vs.Fail("publish-error", "%v", err)
+			}
+		}()
+		go cancelA()
+		vs.Quiesce()
+		sub(3, context.Background())
+		vs.Quiesce()
+		for s := 1; s < 4; s++ {
+			if !hx.MultisetEq(recv[s], []string{"m1"}) {
+				vs.Fail("exactly-once", "subscription %d received %v, published [m1] (a neighbouring subscription was cancelled meanwhile, cfg %s)", s, recv[s], cfg)
+			}
+		}
+		vs.Note("%v", recv)
+		cancelA()
+		g.Close()
+	}}
+}
+
 func init() {
+	for _, cfg := range hx.AllGCfg(0, 1) {
+		if !cfg.Persistent {
+			continue
+		}
+		cfg := cfg
+		sc := churnScenario(cfg, 0)
+		reg.AddW("C11", sc.Name, reg.Quick, 30, func(t reg.Tier) *explore.Scenario {
+			if t == reg.Thorough {
+				return churnScenario(cfg, 1)
+			}
+			return churnScenario(cfg, 0)
+		})
+	}
 	for _, cfg := range hx.AllGCfg(0, 1) {
 		if !cfg.Persistent {
 			continue
@@ -154,7 +217,7 @@ func init() {
 			})
 		}
 		addB(reg.Quick, 5, 1, 2, 1, 2, 4, false)
-		addB(reg.Quick, 8, 1, 2, 2, 2, 3, true)
+		addB(reg.Quick, 8, 1, 2, 2, 1, 2, true)
 		addB(reg.Thorough, 30, 2, 2, 2, 1, 2, true)
 		add(reg.Thorough, 20, 2, 1, 2, 2, 2, false)
 		add(reg.Thorough, 20, 1, 2, 2, 2, 2, true)
